@@ -36,8 +36,14 @@ def exhaustive(tier, counters):
 
 def shards(tier, seed):
   B = 3 if tier == "quick" else 4
-  return [{"name": "s%d" % i, "env": {"x64": True}, "part": i, "B": B,
-           "budget_s": 1000 if tier == "quick" else 6500} for i in range(NSHARDS)]
+  out = [{"name": "s%d" % i, "env": {"x64": True}, "part": i, "B": B,
+          "budget_s": 1000 if tier == "quick" else 6500} for i in range(NSHARDS)]
+  if tier == "thorough":
+    # the repository's own tests as extra workloads for the contracts
+    for i, f in enumerate(["precondition/distributed_shampoo_test.py", "precondition/tearfree/shampoo_test.py",
+                           "precondition/tearfree/reshaper_test.py precondition/tearfree/optimizer_test.py precondition/tearfree/optimizer_smoke_test.py"]):
+      out.append({"name": "repotests%d" % i, "env": {"x64": False}, "part": -1, "B": B, "tests": f, "budget_s": 6500})
+  return out
 
 
 def all_shapes(B, maxrank):
@@ -306,7 +312,37 @@ def enumerate_work(B):
   return work, sum(seen_pre.values())
 
 
+def run_repo_tests(spec, rec):
+  """Runs test files of the repository with the contracts attached (pytest plugin)."""
+  import glob
+  import json
+  import os
+  import subprocess
+  import sys
+  import tempfile
+  repo = os.environ.get("VMON_REPO", "/repo")
+  tmp = tempfile.mkdtemp(prefix="vmon_c06_")
+  env = dict(os.environ, VMON_CONTRACT_COUNTS=os.path.join(tmp, "counts"))
+  p = subprocess.run([sys.executable, "-m", "pytest", "-q", "-p", "no:cacheprovider", "-p", "vmon.pytest_contracts",
+                      "--timeout=1800"] + spec["tests"].split(), cwd=repo, env=env, capture_output=True, text=True, timeout=6000)
+  out = p.stdout + p.stderr
+  n = 0
+  for f in glob.glob(os.path.join(tmp, "counts.*")):
+    for k, v in json.load(open(f)).items():
+      rec.count("repo_tests_" + k, v)
+      n += v
+  rec.count("repo_test_contract_evaluations", n)
+  rec.case("repotests|" + spec["tests"], n > 0, sample={"repo_tests": spec["tests"], "contract_evaluations": n})
+  if "ContractBroken" in out:
+    i = out.index("ContractBroken")
+    rec.violation("contract-broken-in-repo-tests", "a C06 contract fired while running %s: %s" % (spec["tests"], out[max(0, i - 600):i + 300].replace("\n", " | ")), {"fn": "repo_tests", "tests": spec["tests"]})
+  import shutil
+  shutil.rmtree(tmp, ignore_errors=True)
+
+
 def run(spec, rec):
+  if spec.get("tests"):
+    return run_repo_tests(spec, rec)
   from vmon import contracts
   contracts.install()
   work, ncombos = enumerate_work(spec["B"])
@@ -333,7 +369,9 @@ def replay(witness, rec):
   contracts.install()
   w = util.dec(witness)
   fn = w["fn"]
-  if fn == "merge_small_dims":
+  if fn == "repo_tests":
+    run_repo_tests({"tests": w["tests"]}, rec)
+  elif fn == "merge_small_dims":
     check_merge(tuple(w["shape"]), w["limit"], rec)
   elif fn == "Preconditioner":
     check_preconditioner(tuple(w["shape"]), w["merge_limit"], w["block"], w["type"], rec)
